@@ -146,13 +146,16 @@ def run(tier):
             rc.run_harness([[exe, "minors", blob, str(lead), str(fullk), str(k), str(n)] for k in range(n)],
                            timeout=1500, into=hr)
             rc.report_fails(v, hr, tier, extra={"witness_sha256": sha0, "cases": cases})
-            if hr.stat("rec_cases") != nlines or hr.stat("distinct") != nlines:
-                raise vlib.ToolFailure("harness executed %d of %d cases" % (hr.stat("rec_cases"), nlines))
-            if hr.stat("oracle_vectors") != n * nvec * 9:
-                raise vlib.ToolFailure("oracle self-check against TLC ParityOf did not run")
-            if hr.stat("rec_calls") == 0 or hr.stat("check_calls") == 0 or hr.stat("scan_calls") == 0 \
-                    or hr.stat("native_minors") == 0:
-                raise vlib.ToolFailure("a part of the harness executed nothing")
+            # completeness of the run (a shard that stopped because the code under test crashed has already
+            # produced a violation; its remaining cases are then legitimately missing)
+            if not hr.crashed:
+                if hr.stat("rec_cases") != nlines or hr.stat("distinct") != nlines:
+                    raise vlib.ToolFailure("harness executed %d of %d cases" % (hr.stat("rec_cases"), nlines))
+                if hr.stat("oracle_vectors") != n * nvec * 9:
+                    raise vlib.ToolFailure("oracle self-check against TLC ParityOf did not run")
+                if hr.stat("rec_calls") == 0 or hr.stat("check_calls") == 0 or hr.stat("scan_calls") == 0 \
+                        or hr.stat("native_minors") == 0:
+                    raise vlib.ToolFailure("a part of the harness executed nothing")
 
         res_m = f_min.result()
         if res_m.error:
@@ -201,6 +204,7 @@ def run(tier):
             "tlc_wall_s": round(tlc_wall, 1),
             "harness_wall_s": round(hr.wall, 1),
             "harness_failures": hr.stat("failures"),
+            "harness_shards_stopped_by_crash": hr.crashed,
             "witness_sha256": list(sha0),
             "repo": vlib.REPO,
         }
